@@ -41,6 +41,13 @@ PATCH_VALS = [None, True, 0, 1.5, "s", "", [], {}, [1], {"op": "add"}, {"op": "a
               {"op": "add", "path": "/a/" + "9" * 20, "value": 1}, {"op": "test", "path": "/a", "value": [1, 2]}, {"op": "move", "from": "", "path": "/a"}]
 
 
+TYPEVALS = [None, True, False, 0, 1, 1.5, "", "abc", "a.*", "[", [], [1, "a"], {}, {"a": 1}]
+GRID_QUERIES = ["$[?match(@.a, @.b)]", "$[?search(@.a, @.b)]", "$[?match(@.a, 'a.*')]", "$[?search('abc', @.b)]", "$[?length(@.a) == 1]", "$[?length(@.a) < length(@.b)]",
+                "$[?count(@.a.*) > 0]", "$[?value(@.a) == @.b]", "$[?@.a in @.b]", "$[?@.a contains @.b]", "$[?@.a =~ /a.*/]", "$[?@.a < @.b]", "$[?@.a <= @.b]", "$[?@.a == @.b]",
+                "$[?@.a <> @.b]", "$[?!@.a || @.b]", "$[?@.a[0] == @.b[0]]", "$[?@.a['a'] == 1]", "$..[?@ == $[0].a]", "$[?# in @.a]", "$[?@.a in _.x]", "$[?_.x contains @.b]",
+                "$[?match(@.a, 1)]", "$[?search(@.a, true)]", "$[?match(1, @.b)]", "$[*].a[0:2]", "$[*].a[-1]", "$[*].a.*", "$[*].a..*", "$[*]['a','b'][0]", "$[*].a.~"]
+
+
 class Timeout(Exception):
     pass
 
@@ -94,6 +101,11 @@ def gen(ctx):
         for _ in range(ctx.rng.randint(0, 3)):
             r = mutate(ctx.rng, r)
         cases.append({"kind": "rel", "text": r, "base": ctx.rng.choice(VALID_PTRS[:12])})
+    for x in TYPEVALS:
+        for y in TYPEVALS:
+            for q in GRID_QUERIES:
+                cases.append({"kind": "evalgrid", "text": q, "doc": [{"a": x, "b": y}]})
+    ctx.exhaustive_spaces.append("evaluation grid: %d function / operator / selector queries x every ordered pair of %d values of every JSON type" % (len(GRID_QUERIES), len(TYPEVALS)))
     for _ in range(n // 2):
         k = ctx.rng.random()
         if k < 0.1:
@@ -163,6 +175,21 @@ def evaluate(ctx, cases):
                         s = core.outcome(lambda: str(o["ok"]))
                         if "err" in s:
                             ctx.violation("str() of a compiled query raised", {"text": text}, s["err"], "text")
+                elif kind == "evalgrid":
+                    text, doc = c["text"], c["doc"]
+                    o = core.outcome(lambda: jsonpath.compile(text))
+                    ctx.case(("g", text, repr(doc)), True)
+                    if "err" in o:
+                        if o.get("family") != "jsonpath":
+                            ctx.violation("compiling any text must return a query or raise a JSONPath error", {"text": text}, o["err"], "JSONPathError family")
+                        continue
+                    for extra in ({}, {"x": doc[0]["a"]}):
+                        e = core.outcome(lambda: [m.obj for m in o["ok"].finditer(copy.deepcopy(doc), filter_context=extra)])
+                        ce = classify(e, ("jsonpath",))
+                        ctx.count("evalgrid:" + ce.split(":")[0])
+                        if ce.startswith("ESCAPE"):
+                            ctx.violation("evaluating a compiled query on any JSON value must return matches or raise a JSONPath error", {"text": text, "doc": doc, "filter_context": extra}, e["err"] + ": " + e.get("msg", ""), "JSONPathError family")
+                            break
                 elif kind == "pointer":
                     text, doc, ue = c["text"], c["doc"], c["ue"]
                     o = core.outcome(lambda: JSONPointer(text, unicode_escape=ue))
